@@ -117,6 +117,46 @@ def _read_line_tokens(data, i):
         i = j
 
 
+import re as _re
+
+_NZ = rb"[1-9][0-9]*"
+_UIDSET = rb"(?:%s(?::%s)?)(?:,%s(?::%s)?)*" % (_NZ, _NZ, _NZ, _NZ)
+_CODES = {
+    b"COPYUID": _re.compile(rb"%s (%s) (%s)" % (_NZ, _UIDSET, _UIDSET)),  # RFC 4315: both uid-sets non-empty
+    b"APPENDUID": _re.compile(rb"%s %s" % (_NZ, _UIDSET)),
+    b"UIDVALIDITY": _re.compile(_NZ),
+    b"UIDNEXT": _re.compile(_NZ),
+    b"UNSEEN": _re.compile(_NZ),
+    b"PERMANENTFLAGS": _re.compile(rb"\([^()\r\n]*\)"),
+    b"BADCHARSET": _re.compile(rb"(\([^()\r\n]*\))?"),
+    b"CAPABILITY": _re.compile(rb"[^\]\r\n]+"),
+}
+_BARE = (b"ALERT", b"PARSE", b"READ-ONLY", b"READ-WRITE", b"TRYCREATE", b"UIDNOTSTICKY", b"CLOSED", b"NOMODSEQ")
+
+
+def _check_resp_code(line):
+    """resp-text-code of a status response: the codes of RFC 3501 / 4315 must have their arguments."""
+    parts = line.split(b" ", 2)
+    text = parts[2] if len(parts) > 2 and parts[0] != b"+" else (line[2:] if line[:2] == b"+ " else b"")
+    if not text.startswith(b"["):
+        return
+    end = text.find(b"]")
+    if end < 0:
+        raise Bad("response code not closed: %r" % text[:40])
+    code = text[1:end]
+    name, _, arg = code.partition(b" ")
+    name = name.upper()
+    if name in _BARE:
+        if arg:
+            raise Bad("response code %s takes no argument: %r" % (name.decode(), code))
+        return
+    pat = _CODES.get(name)
+    if pat is None:
+        return  # other atoms: accepted as they are
+    if pat.fullmatch(arg) is None:
+        raise Bad("malformed response code: %r" % code)
+
+
 def check_stream(data):
     """(ok, why, responses) - responses: list of ('status', line) / ('data', tokens)"""
     i = 0
@@ -139,6 +179,7 @@ def check_stream(data):
                 line = data[i:eol]
                 if b"\r" in line or b"\n" in line:
                     raise Bad("bare CR/LF in status text")
+                _check_resp_code(line)
                 out.append(("status", line))
                 i = eol + 2
                 continue
